@@ -109,7 +109,8 @@ def time_slice_diffs(arr, time_axis=-1, slice_axis=None):
     for dtpi in range(T-1):
         tp = arr[dtpi+1] # shape vol_shape
         means[dtpi+1] = tp.mean()
-        dtp_diff2 = (tp - last_tp)**2
+        # subtract as floats: integer input would wrap (unsigned) or overflow
+        dtp_diff2 = np.subtract(tp, last_tp, dtype=np.float64)**2
         diff_mean_vol += dtp_diff2
         sliceds[dtpi] = dtp_diff2.reshape(S, -1).mean(-1)
         # check whether we have found a highest-diff slice
